@@ -23,6 +23,8 @@ import (
 const modPrefix = "github.com/buzzfeed/sso/"
 
 type Engine struct {
+	// helpers that could not be inlined (outside the modelled subset): their calls are abstracted to unknown calls
+	inlineFailed map[*ssa.Function]string
 	repo    string
 	prog    *ssa.Program
 	pkgs    []*packages.Package
@@ -979,4 +981,24 @@ func writeLocals() {
 	})
 	b, _ := json.MarshalIndent(cur, "", " ")
 	os.WriteFile(localsFile(), b, 0o644)
+}
+
+// fnsOfPkg returns the source-level functions and methods (not closures, not synthetic wrappers) of
+// the sso package with the given short path, in name order.
+func (e *Engine) fnsOfPkg(short string) []*ssa.Function {
+	var out []*ssa.Function
+	for fn := range ssautil.AllFunctions(e.prog) {
+		if fn.Synthetic != "" || fn.Parent() != nil || fn.Blocks == nil {
+			continue
+		}
+		if fnPkgPath(fn) != modPrefix+"internal/"+short {
+			continue
+		}
+		if fn.Name() == "init" {
+			continue
+		}
+		out = append(out, fn)
+	}
+	sort.Slice(out, func(i, j int) bool { return out[i].String() < out[j].String() })
+	return out
 }
